@@ -293,11 +293,12 @@ Definition exec_xrange (d : db) (args : list bytes) : reply * db :=
         | SMissing => (RArr [], d)
         | SWrong => (err_wrongtype, d)
         | SFound x =>
+          let sel := range_scan lo hi x in
           match cnt with
-          | None => (RArr (map entry_reply (range_scan lo hi x)), d)
+          | None => (RArr (map entry_reply sel), d)
           | Some c =>
             if c =? 0 then (RNilArr, d)
-            else (RArr (map entry_reply (firstn (Z.to_nat c) (range_scan lo hi x))), d)
+            else (RArr (map entry_reply (firstn (Z.to_nat (Z.min c (zlength sel))) sel)), d)
           end
         end
       end
